@@ -15,6 +15,7 @@ CONSTANTS
   TickSet = {1}
   MaxDup = 1
   MaxLoss = 1
+  MaxFlight = 2
 INVARIANTS AtMostOnce BoundedTransmissions GhostAgrees ValidatedOnlyAfterResponse
 PROPERTIES LateDropped NoUnauthenticatedCompletion
 VIEW core
